@@ -665,3 +665,75 @@ def shrink_inp(inp: dict[str, Any], fails: Callable[[dict[str, Any]], bool],
         if repr(cur) == before:
             break
     return cur
+
+
+# ---------------------------------------------------------------------------
+# data shapes: drops (docs/variables_and_drops.md: "an instance of a Python class that
+# implements the Sequence or Mapping interface"), tuples, ranges, one-shot iterables
+# ---------------------------------------------------------------------------
+
+from collections import abc as _abc  # noqa: E402
+
+
+class MapDrop(_abc.Mapping):  # type: ignore[type-arg]
+    """A read-only Mapping drop over a dict (not a dict subclass)."""
+
+    def __init__(self, d: dict[Any, Any]):
+        self._d = d
+
+    def __getitem__(self, k: Any) -> Any:
+        return self._d[k]
+
+    def __iter__(self) -> Any:
+        return iter(self._d)
+
+    def __len__(self) -> int:
+        return len(self._d)
+
+    def __repr__(self) -> str:
+        return f"MapDrop({self._d!r})"
+
+    __str__ = __repr__
+
+
+class SeqDrop(_abc.Sequence):  # type: ignore[type-arg]
+    """A read-only Sequence drop over a list (not a list subclass)."""
+
+    def __init__(self, items: list[Any]):
+        self._l = items
+
+    def __getitem__(self, i: Any) -> Any:
+        return self._l[i]
+
+    def __len__(self) -> int:
+        return len(self._l)
+
+    def __repr__(self) -> str:
+        return f"SeqDrop({self._l!r})"
+
+    __str__ = __repr__
+
+
+def shaped(x: Any, shape: str) -> Any:
+    """The same data in another documented shape."""
+    if shape == "list":
+        return x
+    if shape == "tuple":
+        return tuple(x)
+    if shape == "sequence-drop":
+        return SeqDrop(list(x))
+    if shape == "iterator":
+        return iter(list(x))  # one-shot iterable, consumed by the one application of a render
+    if shape == "mapping-drop-items":
+        return [MapDrop(h) if isinstance(h, dict) else h for h in x]
+    if shape == "tuple-of-mapping-drops":
+        return tuple(MapDrop(h) if isinstance(h, dict) else h for h in x)
+    if shape == "sequence-drop-of-mapping-drops":
+        return SeqDrop([MapDrop(h) if isinstance(h, dict) else h for h in x])
+    if shape == "single-hash":
+        return x[0]
+    if shape == "single-mapping-drop":
+        return MapDrop(x[0])
+    if shape == "range":
+        return range(x[0], x[-1] + 1)
+    raise ValueError(shape)
